@@ -307,7 +307,7 @@ func c09Answered(info *runInfo, res *verifsim.Result, h *history, ifn string, st
 			if stopT != 0 && r.t+maxRADelayNs > stopT {
 				continue
 			}
-			if g.endSeq != 0 && r.t+maxRADelayNs > g.tEnd {
+			if g.endSeq != 0 && r.t+maxRADelayNs > g.tEnd || g.doomT != 0 && r.t+maxRADelayNs > g.doomT {
 				continue // re-initialised before it was due
 			}
 			need[r.src.String()]++
